@@ -48,6 +48,7 @@ def main(argv=None):
         ctx.stats['conditional_assignments_and_returns_expanded_by_the_loader'] = prog.conditionals_expanded
         ctx.stats['empty_container_calls_normalised_by_the_loader'] = prog.containers_normalised
         ctx.stats['deque_spellings_normalised_by_the_loader'] = prog.deque_calls_normalised
+        ctx.stats['test_temporaries_spelled_out_by_the_loader'] = prog.tests_inlined
         ctx.stats['returned_temporaries_inlined_by_the_loader'] = prog.returns_inlined
         mod.run(ctx)
         if args.tier == 'thorough':
